@@ -139,8 +139,11 @@ func VerifC05_SignVerifyExtended() {
 	x := c05newKey()
 	// the advertisement may be signed by a publisher key other than the provider's
 	signer := k
-	if verif_Bool("publisherKeyDiffersFromProvider") {
-		signer = c05newKey()
+	switch verif_Choose("adSigner", 0, 2) {
+	case 1:
+		signer = c05newKey() // a delegated publisher that is not a provider
+	case 2:
+		signer = x // a delegated publisher that is itself one of the extended providers
 	}
 	ad := c05extAd(k, []c05key{x}, verif_Choose("mainPosition", 0, 1))
 	err := ad.SignWithExtendedProviders(signer.priv, func(id string) (crypto.PrivKey, error) {
